@@ -11,20 +11,22 @@ import callgraph
 from mir import from_external_macro
 
 LEVEL_TEXT = (
-    "Static panic census with discharge, plus validator tables: R1 every panic-capable site (overflow / bounds / "
-    "division asserts, unwrap/expect, panic!, Buf::get_*, split_to, split_off, advance, gen_range) in code reachable from "
-    "the request path (decode, handle_request, encode, read_frame, skip_bytes, write, the client task, through dyn Cache "
-    "into MemoryStore and RandomPolicy) must be discharged on every path on which the abstract interpreter reaches it — "
-    "by constant folding, type ranges, or the path's own dominating guards (interval facts on affine forms, min/max case "
-    "split) — or be listed in the one-symbol-wide trusted table with its reason; a site the interpreter never reaches is "
-    "reported, not assumed safe; R2 the validators are exact, in both directions (header_valid <=> magic 0x80, opcode < "
-    "0x25, data type 0; request_valid(k) <=> extras <= 20, key <= 250, key != 0 if required, body >= key + extras), "
-    "evaluated on boundary values; R3 no request is built from an invalid header/lengths: for every opcode, a missing "
-    "required key, key 251, extras 21 or a short body decode to an error, and the boundary values 250/20/exact body are "
-    "accepted; R4 the synchronous request path has no loops except iterator-driven ones and no recursion (the three "
-    "async loops are listed; their termination is not decided); R5 buffer reservations on the connection whose size "
-    "comes from the client are bounded by the item size limit or a constant. Not decided: the numeric buffer bound, "
-    "waiting on a silent peer (the 60 s timeout)."
+    'Static panic census with discharge, plus boundary tables: R1 every panic-capable site (overflow / bounds / '
+    'division asserts, unwrap/expect, panic!, Buf::get_*, split_to, split_off, advance, slice indexing, gen_range) in '
+    'code reachable from the request path (decode, handle_request, encode, read_frame, the discard loop, write, the '
+    'client task, through dyn Cache into MemoryStore and RandomPolicy) must be discharged on every path on which the '
+    "abstract interpreter reaches it — by constant folding, type ranges, or the path's own dominating guards "
+    '(interval facts on affine forms, min/max case split) — or be listed in the trusted table with its reason '
+    "(entries are keyed by the operation's operands, or by one function); a site the interpreter never reaches is "
+    'reported, not assumed safe; R2 header validation is exact in both directions, decided on the public decode: a '
+    'fresh codec given one header with (magic, opcode, data type) from the boundary grid waits for the body exactly '
+    "when magic = 0x80, opcode < 0x25 and data type = 0, and refuses otherwise (the codec's length validator, where "
+    'one of the known shape exists, is tabulated too); R3 no request is built from invalid lengths: for every opcode, '
+    'a missing required key, key 251, extras 21 or a short body decode to an error, and the boundary values '
+    '250/20/exact body are accepted; R4 the synchronous request path has no loops except iterator-driven ones and no '
+    'recursion (the async loops are listed; their termination is not decided); R5 buffer reservations on the '
+    'connection whose size comes from the client are bounded by the item size limit or a constant. Not decided: the '
+    'numeric buffer bound.'
 )
 ASSUMPTIONS = [
     "external macros (log, tracing, tokio::select, format) do not panic on client data: sites inside their expansions are listed, not judged",
